@@ -35,6 +35,8 @@ def compare(obs, rec):
         return f'committed states {obs["commits"]} differ from the states of the persistent actors at their positions'
     if sorted(obs['loads']) != list(range(1, len(rec['pers']) + 1)):
         return f'loaded offsets {obs["loads"]} differ from the persistent list positions'
+    if 'values2' in obs and (bag(obs['values2']) != bag(rec['den']) or obs['commits2'] != expected):
+        return 'a second execution of the same compiled table differs from the direct evaluation of the task graph (the first run left something behind in the instructions)'
     return None
 
 
